@@ -493,6 +493,14 @@ class Specs(object):
                 cl.anchor = ma.group(1)
                 cur.anchored = getattr(cur, 'anchored', [])
                 cur.anchored.append(cl)
+            elif kw == 'callsite':
+                # callsite F requires expr  : checked in THIS function at every static call of F, with arg0, arg1, .. bound to
+                # the actual arguments (what this function hands to F, beyond what F itself demands)
+                ma = re.match(r'(\S+)\s+requires\s+(.*)$', rest)
+                if not ma:
+                    raise SpecError('%s: callsite F requires expr' % src)
+                cur.callsites = getattr(cur, 'callsites', [])
+                cur.callsites.append((ma.group(1), Clause('callsite', ma.group(2).split(' -- ')[0].strip(), props, src)))
             elif kw == 'libfact':
                 # libfact @after"source text" expr -- reason : a fact about the result of a library call made on that
                 # line (what a regular expression can match, ...), assumed when the line has run and reported as an assumption
